@@ -193,7 +193,7 @@ func (m *mainRun) startIncarnation() *vt.Finding {
 	m.exp = exp
 	m.rec.Event("start", 0, m.inc)
 	var serr error
-	ok, _ := vt.WithWatchdog(5*time.Second, func() { serr = exp.Start(context.Background(), xh.HostWith(m.rec)) })
+	ok, _ := vt.WithWatchdog(5*time.Second, func() { serr = xh.StartThenCancel(exp, xh.HostWith(m.rec)) })
 	if !ok {
 		return vt.Failf("start-blocks/main", "Start of incarnation %d did not return within 5s", m.inc)
 	}
@@ -368,7 +368,7 @@ func recoverOn(cfg Cfg, contents map[string][]byte, must map[int64]bool) recover
 	if err != nil {
 		panic(err)
 	}
-	ok, _ := vt.WithWatchdog(3*time.Second, func() { _ = exp.Start(context.Background(), xh.HostWith(rec)) })
+	ok, _ := vt.WithWatchdog(3*time.Second, func() { _ = xh.StartThenCancel(exp, xh.HostWith(rec)) })
 	if !ok {
 		res.hung = "start"
 		res.log = rec.Log()
